@@ -60,6 +60,7 @@ def check(ctx, report):
     # (tabulation of the banner parser over strings followed by further bytes, shared with C07.R6)
     from .c07 import banner
     banner(ctx, report, RULE='C03.R11')
+    declared_constant_lengths(ctx, report)
     library_framing(ctx, report)
     entry_points(ctx, report)
     ownership(ctx, report)
@@ -1567,6 +1568,27 @@ def declared_windows(ctx, report):
 
 
 # ---- R10: messages framed by a library decoder ---------------------------------------------------------------------------
+
+def declared_constant_lengths(ctx, report, RULE='C03.R12'):
+    """A frame whose parser reports a constant length although the frame declares its length on the wire: the declared length has to
+    be *that* constant - every other value is refused - otherwise n is not the declared length and the bytes the peer announced
+    stay in the stream.  Decided on the guards of the parse trace, evaluated for the good value and for values on both sides of it
+    (rule shared with the TPKT / SSLRequest constants of C09.R5)."""
+    from ..spec import load_spec
+    from .c09 import field_pinned
+    report.rule(RULE, 'frames of constant size: the declared length is pinned to the size the parser reports')
+    spec = load_spec('opp.json')['constants']
+    for cname, key, good in (('SslRequest', 'length', spec['postgresql_sslrequest_length']),):
+        c = ctx.model.try_cls(cname)
+        if c is None or c.resolve('_parse') is None:
+            report.error('%s: %s vanished' % (RULE, cname))
+            continue
+        report.count(RULE)
+        report.touch(c.resolve('_parse'))
+        if not field_pinned(ctx, c, key, good, (0, good - 1, good + 1, good + 4, 0x100, 0xffffffff)):
+            report.add(RULE, '%s@declared[%s]' % (c.construct, key),
+                       'the %s field of %s is not pinned to %d: a frame that declares another length is accepted and reported %d bytes long' % (key, cname, good, good))
+
 
 def library_framing(ctx, report):
     """len(load(input).dump()) is the number of bytes the message occupies only for the definite length form: for a BER
